@@ -275,6 +275,42 @@ impl C15 {
                 }
             }
         }
+        // the same cast from a slice that goes on behind the tag ("rest of the
+        // buffer"): the generic structure, and so the typed view, must still have
+        // the tag's own extent
+        {
+            ctx.eval();
+            let mut longer = img.clone();
+            longer.extend_from_slice(&[0x5A; 24]);
+            let reg = Region::new(ctx.placement, &longer);
+            let r = catch(|| -> (usize, Option<(usize, usize)>) {
+                let g = DynSizedStructure::<TagHeader>::ref_from_slice(reg.as_slice()).expect("valid tag bytes");
+                let gs = core::mem::size_of_val(g);
+                let v = catch(|| {
+                    if t < 7 {
+                        cast_sized(t, g)
+                    } else if t < 7 + 2 * NDST {
+                        cast_dst((t - 7) / 2, (t - 7) % 2 == 1, g)
+                    } else {
+                        cast_builtin(id, g)
+                    }
+                });
+                (gs, v.val())
+            });
+            match r {
+                Out::Panic(_) => ctx.count("cast(longer-slice):panic"),
+                Out::Val((gs, v)) => {
+                    if gs != round8(size) {
+                        ctx.violation("generic-structure-extent-from-slice", desc(format!("tag of size {} in a {}-byte slice: generic structure of {} bytes", size, longer.len(), gs)));
+                    } else if let Some((addr, sov)) = v {
+                        if sov != round8(size) || addr != reg.addr() {
+                            ctx.violation("cast(longer-slice):view-larger-than-tag", desc(format!("view of {} bytes for a tag of {}", sov, size)));
+                        }
+                    }
+                    ctx.count("cast(longer-slice):checked");
+                }
+            }
+        }
         // built-in kinds: "the typed view's fields alias the tag's bytes" — run the
         // kind's accessors on the standalone tag; every slice/str they hand out
         // must lie inside the tag (M2) and is touched (M3)
